@@ -192,6 +192,21 @@ def traj_cases(draw, tier):
 
 
 @st.composite
+def long_axis_cases(draw, tier):
+    """a slab cell with more than 1024 (2048, 4096) voxels along one axis and few along the others"""
+    ax = draw(st.integers(0, 2))
+    n_long = draw(st.sampled_from([1023, 1024, 1025, 1076, 2049, 4097] if tier == 'thorough' else [1025, 1076, 2049]))
+    res = draw(st.sampled_from([0.2, 0.25, 0.5]))
+    L = [res * draw(st.sampled_from([3.5, 8.5, 20.5])) for _ in range(3)]
+    L[ax] = res * (n_long + 0.5)
+    lat = {'family': 'orthorhombic', 'orient': 'lower', 'params': L + [90, 90, 90], 'matrix': np.diag(L).tolist()}
+    T, N = draw(st.integers(2, 5)), draw(st.integers(2, 4))
+    coords = [[[draw(st.one_of(st.floats(0, 1, exclude_max=True), st.sampled_from([0.0, 0.5, 0.97, (n_long - 0.5) / (n_long + 0.5) if k == ax else 0.3, 1030.3 / (n_long + 0.5) if k == ax else 0.6])) if True else 0) for k in range(3)] for _ in range(N)] for _ in range(T)]
+    coords = [[[min(max(x, 0.0), 1 - 2**-53) for x in p] for p in fr] for fr in coords]
+    return {'lattice': lat, 'coords': coords, 'resolution': res, 'prelude': [], 'via': draw(st.sampled_from(['method', 'function'])), 'repeat': None}
+
+
+@st.composite
 def crowded_cases(draw, tier):
     """many atoms in one voxel over 100 - 1000 frames: voxel counts far above the number of frames and above the 8-bit range
     (16-bit and wider ranges are reached by large-trajectories)"""
@@ -491,6 +506,9 @@ SUBS = [
     Sub(name='trajectory-histogram', kind='hyp', run=run_traj, strategy=traj_cases,
         rule='1-4 (8) frames x 1-3 (5) atoms in all lattices; resolution free in (0.05 Lmin, Lmin] or aimed at a grid size (power of two for exact edges); coordinates uniform, exactly on voxel edges k/n, one ulp beside them, in the last voxel',
         n={'quick': 150, 'thorough': 2500}, shards={'quick': 10, 'thorough': 16}),
+    Sub(name='long-axis', kind='hyp', run=run_traj, strategy=long_axis_cases,
+        rule='slab cells with 1025 / 1076 / 2049 (1023 - 4097) voxels along one axis and 3 - 20 along the others, samples anywhere incl. the voxels beyond index 1024: same clauses as trajectory-histogram (index packing, per-axis limits)',
+        n={'quick': 6, 'thorough': 60}, shards={'quick': 4, 'thorough': 16}),
     Sub(name='crowded-voxels', kind='hyp', run=run_traj, strategy=crowded_cases,
         rule='2-6 atoms that stay in one voxel for 100 - 300 (1000) frames (frame counts around 128 and 256 included), coarse grids of 1-16 voxels per axis in all lattices, a few stray samples: voxel counts above the number of frames and above 8-bit ranges; same clauses as trajectory-histogram',
         n={'quick': 12, 'thorough': 200}, shards={'quick': 6, 'thorough': 16}),
